@@ -50,6 +50,12 @@ def check(run, model, tier):
         if t.kind != 'test':
             continue
         inner, pol = strip_not(t.ast)
+        if isinstance(inner, ast.Name):
+            # a local bound once to the classifier's answer (`keep = self.is_not_atomic(line)` ... `if keep:`)
+            from sa.util import local_defs as _ld
+            ds_ = [d_ for d_ in _ld(get.node).get(inner.id, []) if isinstance(d_, ast.AST)]
+            if len(ds_) == 1 and isinstance(ds_[0], ast.Call):
+                inner = ds_[0]
         if isinstance(inner, ast.Call) and isinstance(inner.func, ast.Attribute) and dotted(inner.func.value) == get.params[0] \
                 and inner.func.attr in cls.methods:
             # which branch holds the release?
